@@ -907,6 +907,16 @@ theorem authorize_skeleton_pinned : Gen.Authorize_skeleton = [
   "AuthRequestError(w, r, authReq, oidc.ErrRequestNotSupported(), authorizer)",
   "return",
   "}",
+  -- `client` is still nil only behind a custom `AuthorizeValidator`; the default validation closure above (the one
+  -- `providerAuthorizeCore` inlines) assigns it whenever it returns without an error, so for the Provider this branch
+  -- is not taken.  Its error is the redirect-DISABLED `ErrInvalidRequestRedirectURI`, as in the closure.
+  "if client == nil {",
+  "client, err = authorizer.Storage().GetClientByClientID(ctx, authReq.ClientID)",
+  "if err != nil {",
+  "AuthRequestError(w, r, authReq, oidc.ErrInvalidRequestRedirectURI().WithDescription(\"unable to retrieve client by id\").WithParent(err), authorizer)",
+  "return",
+  "}",
+  "}",
   "req, err := authorizer.Storage().CreateAuthRequest(ctx, authReq, userID)",
   "if err != nil {",
   "AuthRequestError(w, r, authReq, oidc.DefaultToServerError(err, \"unable to save auth request\"), authorizer)",
